@@ -104,6 +104,19 @@ static void log_members(void)
 }
 #endif
 
+/* signals are delivered only to the threads the component names (env GP_SIG_THREADS="r1,u1"; unset: every registered thread) */
+static int sig_allowed(const char *name)
+{
+	const char *l = getenv("GP_SIG_THREADS"); size_t n = strlen(name);
+	if (!l) return 1;
+	for (const char *p = l; *p; ) {
+		const char *e = strchr(p, ','); size_t len = e ? (size_t)(e - p) : strlen(p);
+		if (len == n && !strncmp(p, name, n)) return 1;
+		p += len + (e ? 1 : 0);
+	}
+	return 0;
+}
+
 static void check_use(const char *where)
 {
 	if (held) {
@@ -187,7 +200,7 @@ static void *runner(void *arg)
 #ifdef GP_PROJ
 			log_members();
 #endif
-			vrt_sig_allow(1);
+			if (sig_allowed(p->name)) vrt_sig_allow(1);
 #ifdef FLAVOR_QSBR
 			open_cs[p->idx] = cs_next++;	/* qsbr: registered + online = inside an implicit section */
 #endif
@@ -246,6 +259,9 @@ static void *runner(void *arg)
 			for (int i = 0; i < np; i++)
 				if (snap[i] && open_cs[i] == snap[i])
 					vrt_fail("ORACLE grace period too short: synchronize_rcu() by %s returned while the critical section of %s that began before the call is still open", p->name, P[i].name);
+#ifdef GP_PROJ
+			log_members();	/* C15: the lists put back together at the end of the grace period (splice of qsreaders) hold exactly the registered readers */
+#endif
 		} else if (!strcmp(o->kind, "free")) {
 			if (old) { freed[old - objs] = 1; snprintf(res, sizeof res, "%s", vrt_sym(old)); old = NULL; }
 		}
